@@ -372,6 +372,29 @@ def gen_case(rng, slot, nops, stats):
     return {"cm": cm, "cb": cb, "ops": ops}
 
 
+UNI_NAMES = ["Profit", "Pro\ufb01t", "Benefit", "Bene\ufb01t", "\uff30rofit", "\u00e9t\u00e9", "e\u0301te\u0301", "K", "\u212a"]
+
+
+def gen_unicode_case(rng, slot):
+    """(P)-only class (seeded/C19_r4): model names that are valid identifiers but not in NFKC form (ligature, full-width
+    letter, combining accent, KELVIN SIGN) next to their plain spellings: new / rename (with and without rename_old) /
+    close over 2-5 handles.  Registry/Model.v has ASCII names only: these cases are judged by the oracle alone."""
+    cm = slot * GAP + rng.randint(1, 4)
+    cb = slot * GAP + rng.randint(1, 4)
+    ops, nh, closed = [], 0, set()
+    for _ in range(rng.randint(4, 10)):
+        opened = [h for h in range(nh) if h not in closed]
+        k = rng.choices(["new", "rename", "close"], [5, 5, 1])[0] if opened else "new"
+        if k == "new" and nh < 6:
+            ops.append({"k": "new", "name": rng.choice(UNI_NAMES), "expect": 0}); nh += 1
+        elif k == "rename" and opened:
+            ops.append({"k": "rename", "h": rng.choice(opened), "new": rng.choice(UNI_NAMES), "ro": rng.random() < 0.6, "expect": 0})
+        elif k == "close" and opened:
+            h = rng.choice(opened); closed.add(h)
+            ops.append({"k": "close", "h": h, "expect": 0})
+    return {"cm": cm, "cb": cb, "ops": ops, "tag": "u"}
+
+
 # --------------------------------------------------------------------------
 # Coq emission
 # --------------------------------------------------------------------------
@@ -650,6 +673,9 @@ def run(tier, seed, rng):
         shift = (j % CHUNK) * GAP
         if shift:
             cases[j] = shift_case(c, shift)
+    nuni = 60 if tier == "quick" else 600
+    for _ in range(nuni):
+        cases.append(gen_unicode_case(rng, len(cases) % CHUNK))
     res = run_cases(cases)
     terms, idx = [], []
     PROBE = ("import modelx as mx\nm = mx.new_model(); assert m.name.startswith('Model'), m.name; m.close()\n"
@@ -673,7 +699,8 @@ def run(tier, seed, rng):
         if len(r["obs"]) < len(c["ops"]):      # generator's mirror lost track of the handles: keep the executed prefix
             c = cases[j] = dict(c, ops=c["ops"][:len(r["obs"])])
             stats["truncated_cases"] = stats.get("truncated_cases", 0) + 1
-        terms.append(emit_case(c, r)); idx.append(j)
+        if c.get("tag") != "u":
+            terms.append(emit_case(c, r)); idx.append(j)
         for (i, text) in oracle(c, r)[:2]:
             out.p_failures.append({"case": {"cm": c["cm"], "cb": c["cb"], "ops": c["ops"][:i + 1]},
                                    "detail": "op %d (%s): %s" % (i, c["ops"][i]["k"], text),
@@ -693,7 +720,8 @@ def run(tier, seed, rng):
                                    "script": script_for(c, at)})
     out.tie_mismatches += [{"case": cases[idx[b]], "detail": "further mismatch"} for b in bad[20:]]
     out.evaluations = len(cases)
-    out.traces_validated = len(cases) - len(bad)
+    out.traces_validated = len(idx) - len(bad)
+    out.extra["unicode_name_cases_P_only"] = nuni
 
     # ---- coverage accounting ---------------------------------------------
     def canon(c):
